@@ -204,8 +204,34 @@ func (p *pipeline) expected(w *mWorld) map[triple]bool {
 		for _, line := range strings.Split(w.kv[k], "\n") {
 			f := strings.Fields(line)
 			switch {
-			case len(f) == 5 && f[1] == "add":
+			case len(f) == 5 && f[1] == "add", len(f) == 7 && f[1] == "add" && f[5] == "opts":
 				set[triple{f[2], f[3], f[4], ""}] = true
+			case len(f) == 8 && f[1] == "weight" && f[4] == "weight" && f[6] == "tags":
+				// route weight <svc> <src> weight <w> tags "<tag>": the share is divided among the
+				// targets of the service on that route that carry the tag
+				tag := strings.Trim(f[7], `"`)
+				share, _ := strconv.ParseFloat(f[5], 64)
+				var hit []triple
+				for _, in := range w.inst {
+					if in.Name != f[2] || !p.healthy(w, in) {
+						continue
+					}
+					tagged, onRoute := false, false
+					for _, tg := range in.Tags {
+						tagged = tagged || tg == tag
+						onRoute = onRoute || tg == "urlprefix-"+f[3]
+					}
+					if tagged && onRoute {
+						hit = append(hit, triple{in.Name, f[3], fmt.Sprintf("http://%s:%d/", in.Addr, in.Port), ""})
+					}
+				}
+				for _, tr := range hit {
+					if set[tr] {
+						delete(set, tr)
+						tr.weight = strconv.FormatFloat(share/float64(len(hit)), 'f', -1, 64)
+						set[tr] = true
+					}
+				}
 			case len(f) == 3 && f[1] == "del":
 				for tr := range set {
 					if tr.svc == f[2] {
@@ -696,6 +722,18 @@ func kvOutage(t *testing.T) {
 		w.inst["node1/web-1"] = in
 		fc.SetInstance(*in)
 		manual := fmt.Sprintf("route add manual-0 /m%d http://10.8.8.0:80/", rapid.IntRange(0, 5).Draw(t, "m"))
+		switch flavour := rapid.SampledFrom([]string{"add", "weight", "redirect"}).Draw(t, "operator-commands"); flavour {
+		case "weight":
+			// a canary kept at a fixed share by the operator
+			in2 := &fakeconsul.Instance{Node: "node1", NodeAddr: "10.0.1.1", ID: "web-2", Name: "web", Addr: "10.5.5.6", Port: 1001, Tags: []string{"urlprefix-/a", "canary"}, Checks: []string{"passing"}}
+			w.inst["node1/web-2"] = in2
+			fc.SetInstance(*in2)
+			manual += fmt.Sprintf("\nroute weight web /a weight 0.%d tags \"canary\"", rapid.IntRange(1, 4).Draw(t, "canary-share"))
+			hx.Class("consul-kv-outage-with-operator-weights")
+		case "redirect":
+			manual += "\nroute add https-redirect example.com:80/ https://example.com$path opts \"redirect=301\""
+			hx.Class("consul-kv-outage-with-operator-redirect")
+		}
 		page := rapid.SampledFrom([]string{"<html>gone</html>", "nothing here", "<h1>404</h1>"}).Draw(t, "page")
 		w.kv["fabio/config"] = manual
 		fc.MutateKV(func(kv map[string]string) { kv["fabio/config"] = manual; kv["fabio/noroute.html"] = page })
@@ -746,3 +784,5 @@ func kvOutage(t *testing.T) {
 
 func TestC01KVOutage(t *testing.T) { kvOutage(t) }
 func TestC07KVOutage(t *testing.T) { kvOutage(t) }
+func TestC04KVOutage(t *testing.T) { kvOutage(t) }
+func TestC13KVOutage(t *testing.T) { kvOutage(t) }
